@@ -656,7 +656,26 @@ class VM:
         m = re.match(r'(\w[\w:<>, ]*)::(\w+)$', c)
         if m:
             return Enum(m.group(1).split('::')[-1], m.group(2))
+        pm = re.search(r'::(promoted\[\d+\])$', c)
+        if pm and fr is not None:
+            name = re.sub(r'@@\d+$', '', fr.func.name) + '::' + pm.group(1)
+            if name in getattr(self.prog, 'consts', {}):
+                return self.eval_promoted(name)
         return Opaque('const:' + c)
+
+    def eval_promoted(self, name):
+        """A promoted constant is a parameterless body: interpret it once and share the value."""
+        cache = self.__dict__.setdefault('_promoted', {})
+        if name not in cache:
+            m = Machine()
+            m.frames.append(Frame(self.prog.get_const(name), []))
+            m.frames[-1].tybind = {}
+            outs = self.run_machine(m)
+            if len(outs) != 1 or outs[0].kind != 'ret':
+                raise Unsupported('promoted constant ' + name)
+            cache[name] = outs[0].value
+            self.trace_fns.add(name)
+        return cache[name]
 
     def rvalue(self, m, fr, rv):
         rv = rv.strip()
